@@ -295,11 +295,22 @@ public:
 				genCondTree(s.list, cw, 0); add(s);
 			} else if (c < 92 && o.regs) { // plain register, optional reset value and enable
 				bool isBit = rng.chance(1, 3); int a = isBit ? pickBit() : pickVec();
+				std::string fedConst;
 				if (rng.chance(1, 5)) { // register fed by a constant ("started" flags): propagateConstants may remove it only if the reset value agrees
 					if (isBit) { Step k{.kind = "bconst", .width = 0, .str = rng.chance(1, 2) ? "1" : "0"}; a = add(k); }
-					else { Step k{.kind = "const", .width = w(a), .str = constStr(w(a))}; a = add(k); }
+					else {
+						size_t cw = w(a); if (o.wide && rng.chance(1, 3)) cw = 65 + rng.below(80); // also registers wider than one machine word
+						Step k{.kind = "const", .width = cw, .str = constStr(cw)}; fedConst = k.str; a = add(k);
+					}
 				}
 				Step s{.kind = "reg", .width = w(a), .a = a}; if (o.fullyDefined || rng.chance(2, 3)) s.str = constStr(std::max<size_t>(1, w(a)));
+				if (!fedConst.empty() && !s.str.empty() && fedConst.find('x') == std::string::npos) {
+					// reset value vs constant data: equal (the register may go), or different in exactly one bit — anywhere, or (wide registers) above
+					// the first machine word — so that the agreement test is exercised at every bit position (the string is MSB first)
+					unsigned rel = (unsigned) rng.below(3);
+					if (rel == 0) s.str = fedConst;
+					else if (rel == 1) { s.str = fedConst; size_t W = fedConst.size(); size_t bit = (W > 64 && rng.chance(2, 3)) ? 64 + rng.below(W - 64) : rng.below(W); char &c = s.str[W - 1 - bit]; c = (c == '1') ? '0' : '1'; }
+				}
 				if (rng.chance(1, 3)) s.b = genCond(); add(s);
 			} else if (c < 96 && o.regs) { // counter / accumulator with feedback: r = reg(r op x, rst), optionally under a condition
 				int x = pickVec(); Step s{.kind = "acc", .width = w(x), .a = x, .str = constStr(w(x))}; s.k = rng.below(3); if (rng.chance(1, 2)) s.b = genCond(); if (rng.chance(1, 3)) s.c = genCond(); s.k2 = rng.below(2); add(s);
